@@ -374,7 +374,11 @@ func PosOf(in ssa.Instruction) token.Pos {
 // fieldRoles: what an unexported anchor field is, so that it is still found after a rename: when the struct has no
 // field of the frozen name, the single field of the struct that satisfies the predicate takes the role.
 var fieldRoles = map[string]func(types.Type) bool{
-	"Server.wg":     func(t types.Type) bool { return IsNamed(t, "sync", "WaitGroup") },
+	"Server.wg":      func(t types.Type) bool { return IsNamed(t, "sync", "WaitGroup") },
+	"Server.closing": func(t types.Type) bool { return IsNamed(t, "sync/atomic", "Bool") },
+	"Server.mu": func(t types.Type) bool {
+		return IsNamed(t, "sync", "RWMutex") || IsNamed(t, "sync", "Mutex")
+	},
 	"Server.closer": func(t types.Type) bool { _, ok := t.Underlying().(*types.Chan); return ok },
 	"Server.types": func(t types.Type) bool {
 		sl, ok := t.(*types.Slice)
